@@ -12,6 +12,27 @@ const PathSeparator = '/'
 
 var ErrNotExist = fs.ErrNotExist
 
+// Flags of OpenFile, with the values of package os on Linux.
+const (
+	O_RDONLY = 0x0
+	O_WRONLY = 0x1
+	O_RDWR   = 0x2
+	O_APPEND = 0x400
+	O_CREATE = 0x40
+	O_EXCL   = 0x80
+	O_SYNC   = 0x101000
+	O_TRUNC  = 0x200
+)
+
+// FileMode mirrors os.FileMode for signatures only.
+type FileMode = fs.FileMode
+
+var (
+	ErrExist      = fs.ErrExist
+	ErrPermission = fs.ErrPermission
+	ErrClosed     = fs.ErrClosed
+)
+
 // Backend is the simulated kernel.
 type Backend interface {
 	Create(name string) (fd int, err error)
@@ -23,6 +44,8 @@ type Backend interface {
 	Rename(oldpath, newpath string) error
 	Remove(name string) error
 	ReadFile(name string) ([]byte, error)
+	// OpenFile opens with flags (O_CREATE, O_TRUNC, O_EXCL, O_APPEND honoured).
+	OpenFile(name string, flag int) (fd int, err error)
 }
 
 // B must be installed before use.
@@ -39,6 +62,28 @@ func Create(name string) (*File, error) {
 		return nil, err
 	}
 	return &File{fd: fd, name: name}, nil
+}
+
+// OpenFile is the generalized open call.
+func OpenFile(name string, flag int, perm FileMode) (*File, error) {
+	fd, err := B.OpenFile(name, flag)
+	if err != nil {
+		return nil, err
+	}
+	return &File{fd: fd, name: name}, nil
+}
+
+// WriteFile writes data to the named file, creating or truncating it.
+func WriteFile(name string, data []byte, perm FileMode) error {
+	f, err := OpenFile(name, O_WRONLY|O_CREATE|O_TRUNC, perm)
+	if err != nil {
+		return err
+	}
+	_, err = f.Write(data)
+	if err1 := f.Close(); err1 != nil && err == nil {
+		err = err1
+	}
+	return err
 }
 
 func Open(name string) (*File, error) {
